@@ -19,7 +19,7 @@ import (
 
 var c12Types = []TypeSpec{
 	{K: KString}, {K: KString}, {K: KString}, {K: KBool}, {K: KInt}, {K: KInt8}, {K: KInt16}, {K: KInt32}, {K: KInt64}, {K: KUint}, {K: KUint8}, {K: KUint16}, {K: KUint32}, {K: KUint64},
-	{K: KFloat32}, {K: KFloat64}, {K: KDuration}, {K: KCelsius}, {K: KPoint, W: WPtr},
+	{K: KFloat32}, {K: KFloat64}, {K: KDuration}, {K: KCelsius}, {K: KLevel}, {K: KLevel, W: WSlice}, {K: KPoint, W: WPtr},
 	{K: KString, W: WSlice}, {K: KString, W: WSlice}, {K: KInt, W: WSlice}, {K: KFloat64, W: WSlice}, {K: KBool, W: WSlice}, {K: KDuration, W: WSlice}, {K: KString, W: WSlicePtr},
 	{K: KString, W: WPtr}, {K: KInt, W: WPtr}, {K: KBool, W: WPtr}, {K: KFloat64, W: WPtr},
 	{K: KString, W: WMap, MapKey: KString}, {K: KString, W: WMap, MapKey: KString}, {K: KInt, W: WMap, MapKey: KString}, {K: KString, W: WMap, MapKey: KInt}, {K: KFloat64, W: WMap, MapKey: KString}, {K: KBool, W: WMap, MapKey: KString},
@@ -198,6 +198,8 @@ func c12Scalar(r *Rand, k TK) reflect.Value {
 		v.SetInt(x)
 	case k == KCelsius:
 		v.SetInt(int64(r.Intn(65536)) - 32768)
+	case k == KLevel:
+		v.SetInt(int64(int32(r.Uint64() >> uint(32+r.Intn(30)))) * int64(1-2*r.Intn(2)))
 	case k == KPoint:
 		v.Set(reflect.ValueOf(Point{x: r.Intn(2000) - 1000, y: r.Intn(2000) - 1000}))
 	}
